@@ -270,7 +270,12 @@ func dump(sb *strings.Builder, v reflect.Value) {
 			dump(&eb, e)
 			es = append(es, ent{kb.String(), eb.String()})
 		}
-		sort.SliceStable(es, func(i, j int) bool { return es[i].k < es[j].k })
+		sort.SliceStable(es, func(i, j int) bool {
+			if es[i].k != es[j].k {
+				return es[i].k < es[j].k
+			}
+			return es[i].e < es[j].e
+		})
 		sb.WriteString("(m")
 		for _, e := range es {
 			sb.WriteByte(' ')
